@@ -2,9 +2,12 @@ mod common;
 mod sched;
 mod world;
 mod c01;
+mod c06;
+mod reg;
 mod c14;
 mod c15;
 mod c17;
+mod c19;
 mod c20;
 mod eval;
 mod r#gen;
@@ -18,6 +21,10 @@ fn main() {
   if args.len() < 3 {
     eprintln!("usage: dgv <ID> quick|thorough");
     std::process::exit(64);
+  }
+  if args[1] == "dbg" {
+    reg::debug_case();
+    return;
   }
   let id = args[1].as_str();
   let tier = match args[2].as_str() {
@@ -36,10 +43,13 @@ fn main() {
   let code = match id {
     "C01" => c01::run(tier, seed),
     "C02" => c15::run_c02(tier, seed),
+    "C06" => c06::run(tier, seed),
+    "C07" => reg::run_c07(tier, seed),
     "C14" => c14::run(tier, seed),
     "C15" => c15::run_c15(tier, seed),
     "C17" => c17::run_c17(tier, seed),
     "C18" => c17::run_c18(tier, seed),
+    "C19" => c19::run(tier, seed),
     "C20" => c20::run(tier, seed, args.iter().any(|a| a == "--miri")),
     _ => {
       eprintln!("unknown property {}", id);
